@@ -44,6 +44,9 @@ class Binder:
                 self.bound = n.targets[0].value.id
         if self.bound is None:
             raise AnchorError("bind_arguments: bound-args mapping not found")
+        from .common import need_locals
+
+        need_locals(self.fn, "keywords_consumed", "definitely_provided", "position", "positionals", "items")
         self.arms = self._arms()
 
     def _is_A(self, e: ast.AST, attr: str) -> bool:
